@@ -5,6 +5,8 @@ package symexec
 // Natively the same verifnd functions write real files under a temporary directory.
 
 import (
+	"golang.org/x/tools/go/ssa"
+	"time"
 	"encoding/json"
 	"fmt"
 	"go/token"
@@ -85,9 +87,14 @@ func init() {
 			return tuple{out, iface{}}, true
 		},
 		"time.Now": func(i *interpreter, fr *frame, a []value) (value, bool) {
-			// an arbitrary fixed instant: the zero Time
-			t := i.prog.ImportedPackage("time").Type("Time").Type()
-			return zero(t), true
+			// an arbitrary fixed instant: 2001-09-09T01:46:40Z, wall clock only, in time.Local
+			tp := i.prog.ImportedPackage("time")
+			t := zero(tp.Type("Time").Type()).(structure)
+			t[1] = int64(1000000000 + (1969*365+1969/4-1969/100+1969/400)*86400)
+			if g, _ := tp.Members["Local"].(*ssa.Global); g != nil && i.globals[g] != nil {
+				t[2] = *i.globals[g]
+			}
+			return t, true
 		},
 		"encoding/json.NewEncoder": func(i *interpreter, fr *frame, a []value) (value, bool) {
 			return newNative(&jsonEnc{w: a[0]}), true
@@ -141,6 +148,9 @@ func toGoLoose(v value) any {
 			return nil
 		}
 		if _, isStruct := x.t.Underlying().(*types.Struct); isStruct {
+			if x.t.String() == "time.Time" {
+				return nativeTime(x.v.(structure))
+			}
 			return "<" + x.t.String() + ">"
 		}
 		return toGoLoose(x.v)
@@ -167,4 +177,33 @@ func toGoLoose(v value) any {
 		return out
 	}
 	return toGo(v)
+}
+
+// nativeTime converts an interpreter time.Time{wall, ext, loc} into a native one. Only UTC and
+// the local zone (which is UTC in the engine, see time.initLocal) are supported.
+func nativeTime(st structure) time.Time {
+	wall, ok1 := st[0].(uint64)
+	ext, ok2 := st[1].(int64)
+	if !ok1 || !ok2 {
+		panic(pathAbort{"unsupported: bridge on symbolic time"})
+	}
+	if loc, ok := st[2].(*value); ok && loc != nil {
+		if ls, ok := (*loc).(structure); ok {
+			if name, _ := ls[0].(string); name != "" && name != "UTC" && name != "Local" {
+				panic(pathAbort{"unsupported: bridge on a time in zone " + name})
+			}
+		}
+	}
+	const (
+		hasMonotonic   = 1 << 63
+		nsecMask       = 1<<30 - 1
+		nsecShift      = 30
+		wallToInternal = (1884*365 + 1884/4 - 1884/100 + 1884/400) * 86400
+		unixToInternal = (1969*365 + 1969/4 - 1969/100 + 1969/400) * 86400
+	)
+	sec := ext
+	if wall&hasMonotonic != 0 {
+		sec = int64(wall<<1>>(nsecShift+1)) + wallToInternal
+	}
+	return time.Unix(sec-unixToInternal, int64(wall&nsecMask)).UTC()
 }
